@@ -321,16 +321,15 @@ def run_cases(domain, cases, timeout=10.0, jobs=None, fatal_event=None):
     idx = list(range(len(cases)))
     chunks = [idx[i::jobs] for i in range(jobs)]
 
+    fatal = {}
+
     def work(ch):
         w = Worker(domain, timeout)
         try:
             for i in ch:
-                c = cases[i]
-                r = w.run(c)
+                r = w.run(cases[i])
                 if "fatal" in r:
-                    ev = fatal_event(c, r["fatal"]) if fatal_event else \
-                        [{"a": "Fatal", "case": c.get("case", i), "outcome": r["fatal"]}]
-                    results[i] = ev
+                    fatal[i] = r["fatal"]
                 else:
                     results[i] = r["events"]
         finally:
@@ -338,6 +337,26 @@ def run_cases(domain, cases, timeout=10.0, jobs=None, fatal_event=None):
 
     with ThreadPoolExecutor(max_workers=jobs) as ex:
         list(ex.map(work, chunks))
+    # A case that hung or died while a dozen workers (and possibly other checks) competed for the machine is run
+    # once more on its own with a generous limit: only what hangs or dies again is data about the library; a slow
+    # answer under load is not.  (At most 40 such re-runs: a library that hangs everywhere is reported as it is.)
+    retried = 0
+    for i in sorted(fatal):
+        if retried < 40:
+            retried += 1
+            w = Worker(domain, max(60.0, timeout * 6))
+            try:
+                r = w.run(cases[i])
+            finally:
+                w.stop()
+            if "fatal" not in r:
+                results[i] = r["events"]
+                log(f"[run] case {cases[i].get('case', i)} of '{domain}': {fatal[i]} under load, answered when re-run alone")
+                continue
+            fatal[i] = r["fatal"]
+        c = cases[i]
+        results[i] = fatal_event(c, fatal[i]) if fatal_event else \
+            [{"a": "Fatal", "case": c.get("case", i), "outcome": fatal[i]}]
     return results
 
 
